@@ -55,6 +55,7 @@ class Translator:
         self.all_positive = all_positive
         self.attr_of_bound = False      # x.attr for an env-bound local x -> attr_<attr>(value of x)
         self.structured = False         # every attribute chain a.b.c -> attr_c(attr_b(a)) (except on self / numpy)
+        self.unroll_comps = False       # comprehensions over short literal sequences are expanded
         self._syms: Dict[str, sp.Symbol] = {}
 
     # ------------------------------------------------------------- symbols
@@ -282,6 +283,10 @@ class Translator:
             return sp.ceiling(A(0))
         if fn == "len" and args:
             return sp.Function("len")(A(0))
+        if fn == "getattr" and isinstance(n.func, ast.Name) and len(args) == 2 and self.structured:
+            nm = self.tr(args[1])
+            if nm.is_Symbol and nm.name.startswith("'"):
+                return sp.Function("attr_" + nm.name.strip("'"))(A(0))
         if fn == "slice" and isinstance(n.func, ast.Name) and 1 <= len(args) <= 3:
             vals = [self.tr(a) for a in args]
             NONE = sp.Symbol("None")
@@ -307,7 +312,53 @@ class Translator:
         return sp.Function(fname)(*[self.tr(a) for a in args],
                                   *[self.tr(k.value) for k in n.keywords if k.arg])
 
+    def _unrolled_comp(self, n):
+        """Comprehension over a short literal sequence (or a zip with one): expanded element by element."""
+        if len(n.generators) != 1 or n.generators[0].ifs:
+            return None
+        g = n.generators[0]
+        rows = None
+        itv = None
+        if isinstance(g.iter, ast.Call) and call_name(g.iter) == "zip" and g.iter.args and not g.iter.keywords:
+            cols = [self.tr(a) for a in g.iter.args]
+            ns = [len(c) for c in cols if isinstance(c, sp.Tuple)]
+            if ns and min(ns) <= 8:
+                m = min(ns)
+                rows = [sp.Tuple(*[(c[i] if isinstance(c, sp.Tuple) else sp.Function("getitem")(c, sp.Integer(i))) for c in cols]) for i in range(m)]
+        else:
+            itv = self.tr(g.iter)
+            if isinstance(itv, sp.Tuple) and len(itv) <= 8:
+                rows = list(itv)
+        if rows is None:
+            return None
+        saved = dict(self.env)
+        out = []
+        try:
+            for row in rows:
+                if isinstance(g.target, ast.Name):
+                    self.env[g.target.id] = row
+                elif isinstance(g.target, (ast.Tuple, ast.List)):
+                    for j, e in enumerate(g.target.elts):
+                        if isinstance(e, ast.Name):
+                            self.env[e.id] = row[j] if isinstance(row, sp.Tuple) and j < len(row) else sp.Function("getitem")(row, sp.Integer(j))
+                if isinstance(n, ast.DictComp):
+                    k = self.tr(n.key)
+                    v = self.tr(n.value)
+                    if k.is_Symbol and k.name.startswith("'"):
+                        out.append(sp.Function("kv_" + k.name.strip("'"))(v))
+                    else:
+                        out.append(sp.Function("kv")(k, v))
+                else:
+                    out.append(self.tr(n.elt))
+        finally:
+            self.env = saved
+        return sp.Function("dict")(*out) if isinstance(n, ast.DictComp) else sp.Tuple(*out)
+
     def t_ListComp(self, n):
+        if self.unroll_comps:
+            r = self._unrolled_comp(n)
+            if r is not None:
+                return r
         # bound variables are renamed canonically so that the result does not depend on their names
         saved = dict(self.env)
         depth = getattr(self, "_comp_depth", 0)
